@@ -20,49 +20,49 @@ def per_contract(name, rel, f, locs, inner_match, inner_inv, inner_body="", r5=F
 
 
 FUNCTIONS = [
-    per_contract("constructor_order_qa", Q + "constructor_order.rs", "co_of_contract", "qa_locations",
+    per_contract("constructor_order_qa", Q + "constructor_order.rs", "co_of_contract", "$ret",
                  r"box_contract_definition\.parts", r5=True,
-                 inner_inv="function_seen == co_seen($s, $k), qa_locations@ =~= base.union(co_hits($s, $k))",
+                 inner_inv="function_seen == co_seen($s, $k), $ret@ =~= base.union(co_hits($s, $k))",
                  inner_body="proof { axiom_loc_key_model(); }"),
-    per_contract("private_constant_optimization", O + "private_constant.rs", "pc_of_contract", "optimization_locations",
+    per_contract("private_constant_optimization", O + "private_constant.rs", "pc_of_contract", "$ret",
                  r"box_contract_definition\.parts", requires="all_wf(w_contracts(source_unit), |c: Node| wf_contract_vars(c))",
-                 inner_inv="ip.seq() == contract_of(cur).unwrap().parts@, optimization_locations@ =~= base.union(pc_hits(ip.seq(), ip.index@))",
-                 inner_body="proof { axiom_loc_key_model(); } let ghost base2 = optimization_locations@;",
+                 inner_inv="ip.seq() == contract_of(cur).unwrap().parts@, $ret@ =~= base.union(pc_hits(ip.seq(), ip.index@))",
+                 inner_body="proof { axiom_loc_key_model(); } let ghost base2 = $ret@;",
                  extra_loops=[dict(match=r"box_variable_definition\.attrs$", binder="ia",
-                                   inv="is_constant == has_constant(ia.seq(), ia.index@), is_private == has_private(ia.seq(), ia.index@), optimization_locations@ == base2")]),
-    per_contract("private_vars_leading_underscore", Q + "private_vars_leading_underscore.rs", "pv_of_contract", "qa_locations",
+                                   inv="is_constant == has_constant(ia.seq(), ia.index@), is_private == has_private(ia.seq(), ia.index@), $ret@ == base2")]),
+    per_contract("private_vars_leading_underscore", Q + "private_vars_leading_underscore.rs", "pv_of_contract", "$ret",
                  r"box_contract_definition\.parts", r5=True, requires="all_wf(w_contracts(source_unit), |c: Node| wf_contract_vars(c))",
-                 inner_inv="$s == contract_of(cur).unwrap().parts@, qa_locations@ =~= base.union(pv_hits($s, $k))",
-                 inner_body="proof { axiom_loc_key_model(); } let ghost base2 = qa_locations@;",
+                 inner_inv="$s == contract_of(cur).unwrap().parts@, $ret@ =~= base.union(pv_hits($s, $k))",
+                 inner_body="proof { axiom_loc_key_model(); } let ghost base2 = $ret@;",
                  extra_loops=[dict(match=r"box_variable_definition\.attrs\.clone\(\)", binder="ic",
-                                   inv="ic.seq() == box_variable_definition.attrs@, is_constant == has_constant(ic.seq(), ic.index@), qa_locations@ == base2"),
+                                   inv="ic.seq() == box_variable_definition.attrs@, is_constant == has_constant(ic.seq(), ic.index@), $ret@ == base2"),
                               dict(match=r"box_variable_definition\.attrs$", binder="ia",
-                                   inv="qa_locations@ =~= (if vis_contradicts(ia.seq(), ia.index@, sp_starts_with::<char>(variable_name@, '_')) { base2.insert(loc) } else { base2 })",
+                                   inv="$ret@ =~= (if vis_contradicts(ia.seq(), ia.index@, sp_starts_with::<char>(variable_name@, '_')) { base2.insert(loc) } else { base2 })",
                                    body="proof { axiom_loc_key_model(); }")]),
     dict(name="payable_function_optimization", rel=O + "payable_function.rs",
          attrs=["#[verifier::loop_isolation(false)]", "#[verifier::allow_complex_invariants]"],
          contract="ensures r@ == union_hits(w_contracts(source_unit), w_contracts(source_unit).len() as int, |c: Node| payable_of_contract(c))",
          start="    proof { axiom_loc_key_model(); axiom_node_into_identity(); }",
-         after=[dict(match=r"let contract_definition_nodes", text="let ghost w = contract_definition_nodes@;"),
-                dict(match=r"let target_nodes", text="let ghost w2 = target_nodes@;")],
-         loops=[dict(match=r"^contract_definition_nodes$", binder="it",
-                     inv="it.seq() == w, w == w_contracts(source_unit), optimization_locations@ =~= union_hits(w, it.index@, |c: Node| payable_of_contract(c))",
-                     body="proof { axiom_loc_key_model(); lemma_flt_wanted(set![Target::ContractDefinition], all_nodes(su_node(source_unit)), it.index@); } let ghost base = optimization_locations@; let ghost cur = w[it.index@];"),
-                dict(match=r"^target_nodes$", binder="it2",
-                     inv="it2.seq() == w2, w2 == w_fns(cur), optimization_locations@ =~= base.union(hits(w2, it2.index@, |n: Node| pat_payable(n), |n: Node| loc_fn(n)))",
-                     body="proof { axiom_loc_key_model(); lemma_fn_nodes_in_contract(cur, it2.index@); } let ghost base2 = optimization_locations@;"),
+         after=[dict(match="@x0", text="let ghost w = $x0@;"),
+                dict(match="@x1", text="let ghost w2 = $x1@;")],
+         loops=[dict(match=r"^$x0$", binder="it",
+                     inv="it.seq() == w, w == w_contracts(source_unit), $ret@ =~= union_hits(w, it.index@, |c: Node| payable_of_contract(c))",
+                     body="proof { axiom_loc_key_model(); lemma_flt_wanted(set![Target::ContractDefinition], all_nodes(su_node(source_unit)), it.index@); } let ghost base = $ret@; let ghost cur = w[it.index@];"),
+                dict(match=r"^$x1$", binder="it2",
+                     inv="it2.seq() == w2, w2 == w_fns(cur), $ret@ =~= base.union(hits(w2, it2.index@, |n: Node| pat_payable(n), |n: Node| loc_fn(n)))",
+                     body="proof { axiom_loc_key_model(); lemma_fn_nodes_in_contract(cur, it2.index@); } let ghost base2 = $ret@;"),
                 dict(match=r"box_function_definition\.attributes$", binder="ia",
-                     inv="payable == has_payable(ia.seq(), ia.index@), public_or_external == has_pub_ext(ia.seq(), ia.index@), optimization_locations@ == base2")]),
+                     inv="payable == has_payable(ia.seq(), ia.index@), public_or_external == has_pub_ext(ia.seq(), ia.index@), $ret@ == base2")]),
     dict(name="private_func_leading_underscore", rel=Q + "private_func_leading_underscore.rs",
          attrs=["#[verifier::loop_isolation(false)]", "#[verifier::allow_complex_invariants]"],
          contract="ensures r@ == hits_all(spec_walk(set![Target::FunctionDefinition], su_node(source_unit)), |n: Node| pat_private_func(n), |n: Node| loc_fn_name(n))",
          start="    proof { axiom_loc_key_model(); axiom_function_ty_eq(); }",
-         after=[dict(match=r"let target_nodes", text="let ghost w = target_nodes@;")],
-         loops=[dict(match=r"^target_nodes$", binder="it", r5=True,
-                     inv="$s == w, w == spec_walk(set![Target::FunctionDefinition], su_node(source_unit)), qa_locations@ == hits(w, $k, |n: Node| pat_private_func(n), |n: Node| loc_fn_name(n))",
-                     body="proof { axiom_loc_key_model(); } let ghost base = qa_locations@; let ghost cur = w[$k - 1];"),
+         after=[dict(match="@x0", text="let ghost w = $x0@;")],
+         loops=[dict(match=r"^$x0$", binder="it", r5=True,
+                     inv="$s == w, w == spec_walk(set![Target::FunctionDefinition], su_node(source_unit)), $ret@ == hits(w, $k, |n: Node| pat_private_func(n), |n: Node| loc_fn_name(n))",
+                     body="proof { axiom_loc_key_model(); } let ghost base = $ret@; let ghost cur = w[$k - 1];"),
                 dict(match=r"box_fn_definition\.attributes$", binder="ia",
-                     inv="qa_locations@ == (if pat_private_func_prefix(cur, ia.index@) { base.insert(loc_fn_name(cur)) } else { base })",
+                     inv="$ret@ == (if pat_private_func_prefix(cur, ia.index@) { base.insert(loc_fn_name(cur)) } else { base })",
                      body="proof { axiom_loc_key_model(); }")]),
 ]
 LEMMAS = [
